@@ -1,5 +1,5 @@
 # replay of a bounded stand-in violation (C02): re-run native/c02_preps.py
 import sys
-print('BipartiteGraphEmbed(mean_photon_per_mode=1.7, edges=True) on modes (0, 1, 2, 3): total mean photon number 4.00000, requested 6.8')
+print('Gaussian(diagonal V_xx=0.5, V_pp=2.001) on modes [0]: decomposed and natively applied operation give different states (max difference 1)')
 print('REPLAY-VIOLATION')
 sys.exit(1)
